@@ -122,7 +122,20 @@ func walkStmt(s ast.Stmt, depth int, out *[]ev) {
 			walkStmts(cc.Body, depth+1, out)
 		}
 		*out = append(*out, ev{"endswitch", "", depth, s})
-	case *ast.TypeSwitchStmt, *ast.SelectStmt:
+	case *ast.SelectStmt:
+		*out = append(*out, ev{"select", "", depth, s})
+		for _, c := range s.Body.List {
+			cc := c.(*ast.CommClause)
+			if cc.Comm == nil {
+				*out = append(*out, ev{"default", "", depth, cc})
+			} else {
+				*out = append(*out, ev{"comm", show(cc.Comm), depth, cc})
+				walkStmt(cc.Comm, depth+1, out)
+			}
+			walkStmts(cc.Body, depth+1, out)
+		}
+		*out = append(*out, ev{"endselect", "", depth, s})
+	case *ast.TypeSwitchStmt:
 		*out = append(*out, ev{"other", show(s), depth, s})
 	case *ast.BranchStmt:
 		*out = append(*out, ev{"branch", s.Tok.String(), depth, s})
